@@ -1,71 +1,21 @@
-(* Lint of a .properties file from its TEXT: the parser model (Model/ParseFormats.v
-   walk_properties), the entities the linter sees (PropertiesEntity / Junk objects with
-   their key, raw value and position methods), PropertiesEntity.equals, and
-   L10nLinter.lint_file's body on them (Model/Lint.v).  Definitions only.
-
-   Parameters: the checker (after getChecker), and the value of the class counter
-   Junk.junkid when the parse starts (process state: junk keys are
-   "_junk_<counter>_<start>-<end>"). *)
+(* Lint of a .properties / .ini / .dtd file from its TEXT: Model/LintText.v instantiated
+   with the parser model, the entity class's value_position and .val. *)
 From Coq Require Import ZArith NArith List Bool.
 From CL Require Import Base.Sx Base.Res Base.Str Model.Entry Model.Parse Model.ParseFormats
-                       Model.Unescape Model.CheckProps Model.Lint.
+                       Model.Unescape Model.Lint.
+From CL Require Export Model.LintText.
 Import ListNotations.
 
-Definition zspan (sp : nat * nat) : Lint.span := (Z.of_nat (fst sp), Z.of_nat (snd sp)).
-Definition sp_text (s : str) (sp : nat * nat) : str := slice s (fst sp) (snd sp).
-Definition osp_text (s : str) (o : option (nat * nat)) : str :=
-  match o with Some sp => sp_text s sp | None => [] end.
+(* .properties: PropertiesEntity (Entry.value_position; .val unescapes) *)
+Definition props_entities := fmt_entities entry_value_position.
+Definition props_equals := fmt_equals props_val.
+Definition lint_properties {Msg : Type} := @lint_text entry_value_position props_val walk_properties Msg.
 
-(* "_junk_%d_%d-%d" % (junkid, span[0], span[1]) *)
-Definition s_junk_ : str := [95; 106; 117; 110; 107; 95]%N.
-Definition junk_key (n : nat) (sp : nat * nat) : str :=
-  s_junk_ ++ str_of_nat n ++ 95%N :: str_of_nat (fst sp) ++ 45%N :: str_of_nat (snd sp).
+(* .ini: plain Entity (.val is raw_val); IniSection entries are no entities *)
+Definition ini_equals := fmt_equals (fun raw => Ok raw).
+Definition lint_ini {Msg : Type} := @lint_text entry_value_position (fun raw => Ok raw) walk_ini Msg.
 
-(* the objects parser.parse() holds, for the localizable entries of a walk; [j] is
-   Junk.junkid before the entry is made.  The identity e_id is the start offset. *)
-Fixpoint props_entities (s : str) (j : nat) (es : list entry) : list (@entity str) :=
-  match es with
-  | [] => []
-  | e :: es' =>
-      match e_kind e with
-      | KEntity =>
-          mkEntity (fst (e_span e)) (osp_text s (Entry.e_key e)) false (osp_text s (Entry.e_val e))
-                   (entry_position s (zspan (e_span e)))
-                   (entry_value_position s (option_map zspan (Entry.e_val e)))
-          :: props_entities s j es'
-      | KJunk =>
-          (* Junk has no value_position method (AttributeError); lint never asks *)
-          mkEntity (fst (e_span e)) (junk_key (S j) (e_span e)) true (sp_text s (e_span e))
-                   (entry_position s (zspan (e_span e)))
-                   (fun _ => Raise NotSupported)
-          :: props_entities s (S j) es'
-      | _ => props_entities s j es'
-      end
-  end.
-
-Definition count_junk (es : list entry) : nat :=
-  length (filter (fun e => match e_kind e with KJunk => true | _ => false end) es).
-
-(* .val: PropertiesEntityMixin.val unescapes the raw value; Junk.val is its text *)
-Definition ent_val (e : @entity str) : result str :=
-  if e_junk e then Ok (e_raw e) else props_val (e_raw e).
-
-(* Entry.equals: self.key == other.key and self.val == other.val *)
-Definition props_equals (a b : @entity str) : result bool :=
-  if str_eqb (Lint.e_key a) (Lint.e_key b) then
-    do x <- ent_val a; do y <- ent_val b; Ok (str_eqb x y)
-  else Ok false.
-
-(* the body of lint_file for a .properties path: the reference text (if there is a
-   reference file) is parsed first, then the file *)
-Definition lint_properties {Msg : Type} (j0 : nat) (chk : option (@checker str Msg))
-           (text : str) (ref : option str) : result (list (@finding str Msg)) :=
-  do r <- match ref with
-          | None => Ok (None, j0)
-          | Some rt => do es <- walk_properties rt;
-                       Ok (Some (props_entities rt j0 (filter is_localizable es)),
-                           (j0 + count_junk es)%nat)
-          end;
-  do es <- walk_properties text;
-  let current := props_entities text (snd r) (filter is_localizable es) in
-  lint_entities str_eqb props_equals (new_linter str_eqb current chk (fst r)) current.
+(* .dtd: DTDEntity (DTDEntityMixin.value_position; .val is html.unescape(raw_val), a
+   library function: parameter) *)
+Definition lint_dtd {Msg : Type} (html_unescape : str -> str) :=
+  @lint_text dtd_value_position (fun raw => Ok (html_unescape raw)) walk_dtd Msg.
